@@ -10,7 +10,7 @@ VARIABLES keys, prefixGiven, prefixKey, size, pages, cursor, acc, pc
 svars == <<keys, prefixGiven, prefixKey, size, pages, cursor, acc, pc>>
 
 KeySeqs == UNION { { [i \in 1..n |-> [under |-> f[i][1], suf |-> f[i][2], n |-> i]]
-                       : f \in [1..n -> BOOLEAN \X {"end", "mid", "none"}] }
+                       : f \in [1..n -> BOOLEAN \X {"end", "mid", "none", "upper"}] }
                     : n \in 0..MaxKeys }
 
 Init ==
